@@ -429,6 +429,83 @@ pub struct ClientSide {
 }
 
 // ------------------------------------------------------------------------------------------
+// Wire model of mutate messages and acknowledgements (C10, C11, C12)
+// ------------------------------------------------------------------------------------------
+
+pub fn read_varint(b: &[u8], pos: &mut usize) -> Option<u64> {
+    let mut v: u64 = 0;
+    let mut shift = 0;
+    loop {
+        let byte = *b.get(*pos)?;
+        *pos += 1;
+        v |= ((byte & 0x7f) as u64) << shift;
+        if byte & 0x80 == 0 {
+            return Some(v);
+        }
+        shift += 7;
+        if shift > 63 {
+            return None;
+        }
+    }
+}
+
+/// All `(etag, ctag, ver)` payload markers in a message.
+pub fn payloads_in(bytes: &[u8]) -> Vec<(u8, u8, u8)> {
+    let mut v = Vec::new();
+    for w in bytes.windows(4) {
+        if w[0] == MAGIC && (1..=7).contains(&w[2]) && (1..=8).contains(&w[1]) {
+            v.push((w[1], w[2], w[3]));
+        }
+    }
+    v
+}
+
+#[derive(Clone, Debug)]
+pub struct MutMsgInfo {
+    pub client: usize,
+    pub index: u16,
+    pub tick: u32,
+    pub update_tick: u32,
+    pub count: Option<u64>,
+    pub payloads: Vec<(u8, u8, u8)>,
+    pub server_frame: u32,
+    pub len: usize,
+    pub id: u32,
+}
+
+#[derive(Default)]
+pub struct AckModel {
+    /// Registered at send, removed when its acknowledgement is processed.
+    pub in_flight: BTreeMap<(usize, u16), MutMsgInfo>,
+    /// Indices delivered to the server's mailbox, processed by its next frame.
+    pub pending_acks: Vec<(usize, u16)>,
+    /// (client, etag) -> newest tick of a message containing the entity whose ack was processed.
+    pub acked_tick: BTreeMap<(usize, u8), u32>,
+    pub all: Vec<MutMsgInfo>,
+}
+
+pub fn parse_mutate(track: bool, client: usize, w: &WireRec) -> Option<MutMsgInfo> {
+    let b = &w.bytes[..];
+    let mut pos = 0;
+    let update_tick = read_varint(b, &mut pos)? as u32;
+    let tick = read_varint(b, &mut pos)? as u32;
+    let count = if track { Some(read_varint(b, &mut pos)?) } else { None };
+    let index = u16::from_le_bytes([*b.get(pos)?, *b.get(pos + 1)?]);
+    pos += 2;
+    Some(MutMsgInfo {
+        client,
+        index,
+        tick,
+        update_tick,
+        count,
+        payloads: payloads_in(&b[pos..]),
+        server_frame: w.server_frame,
+        len: b.len(),
+        id: w.id,
+    })
+}
+
+// ------------------------------------------------------------------------------------------
 // World operations
 // ------------------------------------------------------------------------------------------
 
@@ -543,6 +620,9 @@ pub struct Sim {
     /// Messages the server produced for a connection that no longer exists.
     pub orphan_messages: u32,
     pub server_stopped_pending_reset: bool,
+    pub acks: AckModel,
+    /// (etag, ctag) -> (version, first tick at which that version was observable) of the last edit.
+    pub last_edit: BTreeMap<(u8, u8), (u8, Option<u32>)>,
     /// Confirmed tick seen last per (client, client entity) - C02 oracle state.
     pub prev_confirmed: BTreeMap<(usize, u64), u32>,
 }
@@ -579,6 +659,8 @@ impl Sim {
             pre_despawned: BTreeSet::new(),
             orphan_messages: 0,
             server_stopped_pending_reset: false,
+            acks: AckModel::default(),
+            last_edit: BTreeMap::new(),
             prev_confirmed: BTreeMap::new(),
         };
         sim.snaps.insert(0, Snap::new());
@@ -652,6 +734,9 @@ impl Sim {
         for k in keys {
             self.vis_rec.remove(&k);
         }
+        self.acks.in_flight.retain(|k, _| k.0 != c);
+        self.acks.pending_acks.retain(|k| k.0 != c);
+        self.acks.acked_tick.retain(|k, _| k.0 != c);
     }
 
     pub fn is_authorized(&self, c: usize) -> bool {
@@ -794,6 +879,28 @@ impl Sim {
         debug_assert!(self.enabled(op), "op {op:?} applied while disabled");
         self.actions.push(Action::Op(op));
         let v = self.next_ver();
+        match op {
+            Op::Mut(s, t) | Op::Ins(s, t) => {
+                self.last_edit.insert((s + 1, t), (v, None));
+            }
+            Op::MutBig(s, _) | Op::InsBig(s, _) => {
+                self.last_edit.insert((s + 1, TBIG), (v, None));
+            }
+            Op::Spawn(s, mask) => {
+                for t in 1..8u8 {
+                    if mask & (1 << t) != 0 {
+                        self.last_edit.insert((s + 1, t), (v, None));
+                    }
+                }
+            }
+            Op::MapPre(_, s) | Op::MapPreUnmarked(_, s) => {
+                self.last_edit.insert((s + 1, TA), (v, None));
+            }
+            Op::InsRef(s, _) => {
+                self.last_edit.insert((s + 1, TR), (v, None));
+            }
+            _ => {}
+        }
         match op {
             Op::Nop => {}
             Op::Spawn(s, mask) => {
@@ -1003,6 +1110,11 @@ impl Sim {
         self.last_frame_was_tick = is_tick;
         self.last_tick = now;
         if is_tick {
+            for e in self.last_edit.values_mut() {
+                if e.1.is_none() {
+                    e.1 = Some(now);
+                }
+            }
             let snap = self.server_snap();
             let vis: Vec<BTreeSet<u64>> = (0..self.clients.len())
                 .map(|c| {
@@ -1018,6 +1130,17 @@ impl Sim {
             self.snaps.insert(now, snap);
             self.vis_snaps.insert(now, vis);
             self.auth_snaps.insert(now, auth);
+        }
+        // Acknowledgements put into the mailbox before this frame were processed in PreUpdate,
+        // i.e. before this frame's replication was collected.
+        for (c, idx) in std::mem::take(&mut self.acks.pending_acks) {
+            if let Some(info) = self.acks.in_flight.remove(&(c, idx)) {
+                let etags: BTreeSet<u8> = info.payloads.iter().map(|p| p.0).collect();
+                for e in etags {
+                    let t = self.acks.acked_tick.entry((c, e)).or_insert(0);
+                    *t = (*t).max(info.tick);
+                }
+            }
         }
         let sent: Vec<(Entity, usize, Bytes)> = self
             .server
@@ -1044,6 +1167,12 @@ impl Sim {
                 bytes: bytes.clone(),
                 id,
             });
+            if ch == 1 {
+                if let Some(info) = parse_mutate(self.cfg.track, c, self.wire.last().unwrap()) {
+                    self.acks.in_flight.insert((c, info.index), info.clone());
+                    self.acks.all.push(info);
+                }
+            }
             self.clients[c].s2c[ch].push_back(Msg {
                 id,
                 bytes,
@@ -1079,6 +1208,17 @@ impl Sim {
         let Some(conn) = self.clients[c].conn else {
             return 0;
         };
+        if ch == 0 {
+            for m in &msgs {
+                for pair in m.bytes.chunks(2) {
+                    if pair.len() == 2 {
+                        self.acks
+                            .pending_acks
+                            .push((c, u16::from_le_bytes([pair[0], pair[1]])));
+                    }
+                }
+            }
+        }
         let mut server = self.server.world_mut().resource_mut::<RepliconServer>();
         for m in msgs {
             server.insert_received(conn, ch, m.bytes);
@@ -1239,6 +1379,32 @@ impl Sim {
             .world_mut()
             .resource_mut::<RepliconServer>()
             .set_running(true);
+    }
+
+    /// Acknowledgement indices that name no in-flight message: one never used so far, one far
+    /// in the future, and one that was already acknowledged (a repeat).
+    pub fn inject_junk_acks(&mut self, c: usize) {
+        let Some(conn) = self.clients[c].conn else { return };
+        let used: BTreeSet<u16> = self.acks.all.iter().filter(|m| m.client == c).map(|m| m.index).collect();
+        let in_flight: BTreeSet<u16> = self.acks.in_flight.keys().filter(|k| k.0 == c).map(|k| k.1).collect();
+        let mut junk: Vec<u16> = Vec::new();
+        let next_unused = (0..u16::MAX).find(|i| !used.contains(i)).unwrap();
+        junk.push(next_unused.wrapping_add(7));
+        junk.push(0xFFF0);
+        if let Some(&old) = used.iter().find(|i| !in_flight.contains(i)) {
+            junk.push(old);
+        }
+        let mut bytes = Vec::new();
+        for j in junk {
+            if in_flight.contains(&j) {
+                continue;
+            }
+            bytes.extend_from_slice(&j.to_le_bytes());
+        }
+        self.server
+            .world_mut()
+            .resource_mut::<RepliconServer>()
+            .insert_received(conn, 0usize, bytes);
     }
 
     pub fn server_running(&self) -> bool {
